@@ -1,6 +1,7 @@
 import GeosModel.Proofs.Norm.Area
 import GeosModel.Proofs.Norm.Length
 import GeosModel.Proofs.Construct.Check
+import GeosModel.Proofs.Construct.InteriorPoint
 import GeosModel.Model.Norm.Orientation
 /-!
 # C20 — constructions satisfy their defining conditions; normal form is canonical
@@ -26,7 +27,14 @@ refuted.
 Part 2 (constructions).  Soundness of the exact certificate checkers of Model/Construct/Check.lean, which the driver
 runs on the outputs of GEOSConvexHull / Envelope / MinimumBoundingCircle / MinimumWidth / MinimumRotatedRectangle /
 PointOnSurface / GetCentroid (stream `construct`).  The constructions' algorithms themselves (Graham scan, rotating
-calipers, scan line, triangle fan) are not modelled.
+calipers, triangle fan) are not modelled.
+
+Part 3 (scan line of the point on surface).  `InteriorPointArea` *is* modelled (Model/Construct/InteriorPoint.lean:
+`ScanLineYOrdinateFinder`, the crossing rule, the sorted crossing pairs and the widest section, over exact rationals) and
+tied by the stream `pos` (on grid inputs the returned ordinate must be the modelled scan ordinate exactly and the abscissa
+the midpoint of a widest modelled section).  Proved: the scan line passes through no vertex of any ring, hence lies on no
+horizontal edge, and every counted crossing is a strict straddle.  That the midpoint of a section is then interior (the
+even–odd argument, which needs the validity of the polygon) is not proved; it is checked case by case by `posCheck`.
 -/
 namespace GeosModel.C20
 open GeosModel GeosModel.Norm GeosModel.Construct GeosModel.Kernel
@@ -261,6 +269,65 @@ theorem edge_width_covers (pts : List Pt) (a b p : Pt) (hp : p ∈ pts) : ((det 
 theorem point_on_surface_check (rings : List (List Pt)) (p : Pt) :
     posCheck rings p = true ↔ locateInPolygon p rings = .interior := posCheck_iff
 
+
+/-! ## 6b. the scan line of `InteriorPointArea` -/
+
+/-- **`ScanLineYOrdinateFinder`**: for a polygon whose shell is not flat the final interval `(loY, hiY)` is
+non-degenerate and no vertex ordinate of the shell or of any hole lies strictly inside it -/
+theorem scan_interval_excludes_vertices {shell : List Pt} {holes : List (List Pt)} {st : Int × Int} {a b : Pt}
+    (ha : a ∈ shell) (hb : b ∈ shell) (hab : a.y < b.y) (h : scanInterval (shell :: holes) = some st) :
+    st.1 < st.2 ∧ ∀ ring ∈ shell :: holes, ∀ v ∈ ring, v.y ≤ st.1 ∨ st.2 ≤ v.y :=
+  scanInterval_spec ha hb hab h
+
+/-- … so the scan line `y = y2 / 2` passes through no vertex -/
+theorem scan_line_avoids_vertices {shell : List Pt} {holes : List (List Pt)} {y2 : Int} {a b : Pt}
+    (ha : a ∈ shell) (hb : b ∈ shell) (hab : a.y < b.y) (h : scanY2 (shell :: holes) = some y2) :
+    ∀ ring ∈ shell :: holes, ∀ v ∈ ring, 2 * v.y ≠ y2 := by
+  unfold scanY2 at h
+  match hs : scanInterval (shell :: holes), h with
+  | some st, h =>
+    simp only [Option.map_some, Option.some.injEq] at h
+    obtain ⟨h1, h2⟩ := scanInterval_spec ha hb hab hs
+    intro ring hr v hv
+    have := h2 ring hr v hv
+    omega
+
+/-- … lies on no horizontal edge of any ring -/
+theorem scan_line_not_on_horizontal_edge {shell : List Pt} {holes : List (List Pt)} {y2 : Int} {a b : Pt}
+    (ha : a ∈ shell) (hb : b ∈ shell) (hab : a.y < b.y) (h : scanY2 (shell :: holes) = some y2) :
+    ∀ ring ∈ shell :: holes, ∀ e ∈ edges ring, e.1.y = e.2.y → 2 * e.1.y ≠ y2 ∧ edgeCrossing y2 e.1 e.2 = none := by
+  intro ring hr e he hh
+  have hv := scan_line_avoids_vertices ha hb hab h ring hr e.1 (mem_of_mem_edges he).1
+  refine ⟨hv, ?_⟩
+  unfold edgeCrossing
+  split
+  · rfl
+  · split
+    · rfl
+    · first | rfl | simp [hh]
+
+/-- … and an edge contributes a crossing exactly when it strictly straddles the line: the vertex-on-the-line rules of
+`isEdgeCrossingCounted` are never used -/
+theorem scan_line_crossings_strict {shell : List Pt} {holes : List (List Pt)} {y2 : Int} {a b : Pt}
+    (ha : a ∈ shell) (hb : b ∈ shell) (hab : a.y < b.y) (h : scanY2 (shell :: holes) = some y2) :
+    ∀ ring ∈ shell :: holes, ∀ e ∈ edges ring,
+      ((edgeCrossing y2 e.1 e.2).isSome = true ↔ (2 * e.1.y < y2 ∧ y2 < 2 * e.2.y) ∨ (2 * e.2.y < y2 ∧ y2 < 2 * e.1.y)) := by
+  intro ring hr e he
+  have hm := mem_of_mem_edges he
+  exact edgeCrossing_isSome_iff (scan_line_avoids_vertices ha hb hab h ring hr e.1 hm.1)
+    (scan_line_avoids_vertices ha hb hab h ring hr e.2 hm.2)
+
+/-- `findBestMidpoint`: the reported section (if any) is one of the sections and its width is the reported width -/
+theorem widest_section_is_a_section (secs : List (Q × Q)) :
+    let r := bestFrom ⟨0, 1⟩ none secs
+    (∀ s, r.2 = some s → s ∈ secs ∧ width s = r.1) := by
+  intro r s hs
+  obtain ⟨a, b, _⟩ := bestFrom_spec secs ⟨0, 1⟩ none (by intro t ht; cases ht)
+  refine ⟨?_, a s hs⟩
+  rcases b with b | ⟨t, ht, b⟩
+  · rw [b] at hs; cases hs
+  · rw [b] at hs; cases hs; exact ht
+
 /-! ## 7. non-vacuity -/
 
 /-- POLYGON((0 0,9 0,9 9,0 9,0 0),(1 1,2 1,2 2,1 1)) -/
@@ -300,5 +367,17 @@ example : mbcCheck sq [⟨0, 0⟩, ⟨4, 0⟩, ⟨4, 4⟩] = true := by decide
 example : boxOf sq = some ⟨0, 4, 0, 4⟩ := by decide
 example : posCheck [[⟨0, 0⟩, ⟨4, 0⟩, ⟨4, 4⟩, ⟨0, 4⟩, ⟨0, 0⟩]] ⟨2, 2⟩ = true := by decide
 example : posCheck [[⟨0, 0⟩, ⟨4, 0⟩, ⟨4, 4⟩, ⟨0, 4⟩, ⟨0, 0⟩]] ⟨4, 2⟩ = false := by decide
+
+/-- POLYGON((0 0,10 0,10 10,0 10,0 0),(3 2,9 2,9 5,6 5,6 8,3 8,3 2)): an L-shaped hole whose step is at mid-height -/
+def lHole : List (List Pt) :=
+  [[⟨0, 0⟩, ⟨10, 0⟩, ⟨10, 10⟩, ⟨0, 10⟩, ⟨0, 0⟩], [⟨3, 2⟩, ⟨9, 2⟩, ⟨9, 5⟩, ⟨6, 5⟩, ⟨6, 8⟩, ⟨3, 8⟩, ⟨3, 2⟩]]
+/-- the step ordinate 5 narrows the interval to (5, 8): the scan line is y = 6.5, not y = 5 -/
+example : scanInterval lHole = some (5, 8) := by decide
+example : scanY2 lHole = some 13 := by decide
+/-- crossings 0, 3, 6, 10: the widest section is [6, 10], the answer (8, 6.5) is interior -/
+example : (sections 13 lHole).map (fun s => (s.1.num, s.1.den, s.2.num, s.2.den)) = [(0, 1, 3, 1), (6, 1, 10, 1)] := by decide
+example : posCheck (lHole.map fun r => r.map fun p => ⟨2 * p.x, 2 * p.y⟩) ⟨16, 13⟩ = true := by decide
+/-- on the line y = 5 (what a finder that ignores the hole's inner ordinates would choose) the point (8, 5) is on the hole -/
+example : posCheck lHole ⟨8, 5⟩ = false := by decide
 
 end GeosModel.C20
